@@ -29,7 +29,7 @@ theorem resolveConstants_expands (H : Hooks) (items : List Item) : ∀ (c : Dict
           · simp only [bind, Except.bind] at h
             split at h
             · simp at h
-            · exact Expands.cons (repl := []) (Img.drop rfl rfl) (ih _ _ _ h)
+            · exact Expands.cons (repl := []) (Img.drop rfl) (ih _ _ _ h)
       · simp at h
     · have hw : resolveConstants H (it :: rest) c = (do
           let (out, c) ← resolveConstants H rest c
@@ -60,7 +60,7 @@ theorem resolveLabelsAux_expands (items : List Item) : ∀ (p : Int) (L : Dict) 
       simp only [resolveLabelsAux] at h
       split at h
       · simp at h
-      · exact Expands.cons (repl := []) (Img.drop rfl rfl) (ih _ _ _ _ _ h)
+      · exact Expands.cons (repl := []) (Img.drop rfl) (ih _ _ _ _ _ h)
     · have hw : resolveLabelsAux (it :: rest) p L d = (do
           let sz ← it.sizeE
           let (out, l) ← resolveLabelsAux rest (p + sz) L d
@@ -89,7 +89,7 @@ theorem aliases_expands (items : List Item) (constants : Dict) :
   intro it
   cases it with
   | instr line ins =>
-    exact Img.same (it' := .instr line (ins.mapRegs (aliasReg constants))) rfl
+    exact Img.same (it' := .instr line (ins.mapRegs (aliasReg constants))) rfl rfl
       (fun h => by simp [Item.isMarker] at h) (fun h => by simp [Item.isData] at h) (fun _ => rfl)
   | _ => exact Img.refl _
 
@@ -99,7 +99,7 @@ theorem strings_expands (items : List Item) : Expands items (resolveStrings item
   intro it
   cases it with
   | string line v =>
-    refine Img.same (it' := .blob line (utf8Bytes v)) rfl (fun h => by simp [Item.isMarker] at h)
+    refine Img.same (it' := .blob line (utf8Bytes v)) rfl rfl (fun h => by simp [Item.isMarker] at h)
       (fun _ => ⟨rfl, ?_⟩) (fun h => by simp [Item.isInstr] at h)
     simp only [Item.sizeD, Item.size?, Option.getD_some, utf8Bytes_length]
   | _ => exact Img.refl _
@@ -134,7 +134,7 @@ theorem compressBody_img (H : Hooks) (constants : Dict) (it : Item) (p : Int) (L
           | some ci =>
             simp only [hci, pure, Except.pure, Except.ok.injEq, Prod.mk.injEq] at h
             obtain ⟨rfl, rfl⟩ := h
-            exact Img.same rfl (fun h => by simp [Item.isMarker] at h)
+            exact Img.same rfl rfl (fun h => by simp [Item.isMarker] at h)
               (fun h => by simp [Item.isData] at h) (fun _ => rfl)
   | _ => exact keep_img (by simpa [compressBody] using h)
 
@@ -150,12 +150,41 @@ theorem pseudoBody_img (H : Hooks) (constants : Dict) (it : Item) (p : Int) (L :
       obtain ⟨instrs, short⟩ := res
       simp only [hres, pure, Except.pure, Except.ok.injEq, Prod.mk.injEq] at h
       obtain ⟨rfl, rfl⟩ := h
-      refine Img.other ?_ rfl rfl rfl
-      intro x hx
-      simp only [List.mem_map] at hx
-      obtain ⟨i, _, rfl⟩ := hx
-      rfl
+      refine Img.spec ?_ rfl rfl rfl ?_
+      · intro x hx
+        simp only [List.mem_map] at hx
+        obtain ⟨i, _, rfl⟩ := hx
+        rfl
+      · unfold expandPseudo at hres
+        cases hk : pseudoKind name with
+        | none => simp [hk] at hres
+        | some k =>
+          simp only [hk] at hres
+          obtain ⟨_, hshape⟩ := expandKind_shape hres
+          have hlen : instrs.length = 1 ∨ instrs.length = 2 := by
+            rcases hshape with ⟨_, _, hl⟩ | ⟨_, _, hl⟩ | ⟨_, _, hl⟩ <;> simp [hl]
+          simp only [SpecImg]
+          rcases hlen with hl | hl
+          · match instrs, hl with
+            | [a], _ => exact Or.inl ⟨_, rfl, Or.inl rfl⟩
+          · match instrs, hl with
+            | [a, b], _ => exact Or.inr ⟨_, _, rfl, Or.inl rfl, Or.inl rfl⟩
   | _ => exact keep_img (by simpa [pseudoBody] using h)
+
+/-- a negative alignment never pads: `alignPadding` is 0 (at a multiple) or negative (refused) -/
+theorem alignPadding_neg {a p pad : Int} (ha : a < 0) (h : alignPadding a p = some pad) : pad ≤ 0 := by
+  have hm : pyMod p a = -((-p).fmod (-a)) := by
+    have := Int.neg_fmod_neg (-p) (-a)
+    simp only [Int.neg_neg] at this
+    unfold pyMod; exact this
+  have h1 : 0 ≤ (-p).fmod (-a) := Int.fmod_nonneg_of_pos _ (by omega)
+  have h2 : (-p).fmod (-a) < -a := Int.fmod_lt_of_pos _ (by omega)
+  unfold alignPadding at h
+  rw [if_neg (by omega), hm] at h
+  simp only at h
+  split at h
+  · simp only [Option.some.injEq] at h; omega
+  · simp only [Option.some.injEq] at h; omega
 
 theorem alignBody_img (it : Item) (p : Int) (L : Dict) (repl : List Item)
     (n : Int) (_ : ∀ line nm, it ≠ .label line nm) (h : alignBody it p L = .ok (repl, n)) :
@@ -165,15 +194,24 @@ theorem alignBody_img (it : Item) (p : Int) (L : Dict) (repl : List Item)
     simp only [alignBody] at h
     split at h
     · simp at h
-    · split at h
+    · rename_i padding hpad
+      split at h
       · simp only [pure, Except.pure, Except.ok.injEq, Prod.mk.injEq] at h
         rw [← h.1]
-        exact Img.other (fun x hx => by simp at hx) rfl rfl rfl
-      · split at h
+        exact Img.spec (fun x hx => by simp at hx) rfl rfl rfl (Or.inl rfl)
+      · rename_i hne
+        split at h
         · simp at h
-        · simp only [pure, Except.pure, Except.ok.injEq, Prod.mk.injEq] at h
+        · rename_i hnn
+          simp only [pure, Except.pure, Except.ok.injEq, Prod.mk.injEq] at h
           rw [← h.1]
-          refine Img.other ?_ rfl rfl rfl
+          have hpos : 0 < alignment := by
+            rcases Int.lt_trichotomy alignment 0 with hlt | heq | hgt
+            · have := alignPadding_neg hlt hpad; omega
+            · subst heq; simp [alignPadding] at hpad
+            · exact hgt
+          obtain ⟨r1, r2, _⟩ := alignPadding_range hpos hpad
+          refine Img.spec ?_ rfl rfl rfl (Or.inr ⟨padding.toNat, by omega, by omega, rfl⟩)
           intro x hx; simp only [List.mem_singleton] at hx; subst hx; rfl
   | _ => exact keep_img (by simpa [alignBody] using h)
 
@@ -191,7 +229,7 @@ theorem immBody_img (H : Hooks) (constants : Dict) (it : Item) (p : Int) (L : Di
       · simp at h
       · simp only [pure, Except.pure, Except.ok.injEq, Prod.mk.injEq] at h
         rw [← h.1]
-        exact Img.same rfl (fun h => by simp [Item.isMarker] at h)
+        exact Img.same rfl rfl (fun h => by simp [Item.isMarker] at h)
           (fun h => by simp [Item.isData] at h) (fun _ => rfl)
   | pack line fmt imm =>
     simp only [immBody, bind, Except.bind] at h
@@ -201,7 +239,7 @@ theorem immBody_img (H : Hooks) (constants : Dict) (it : Item) (p : Int) (L : Di
       · simp at h
       · simp only [pure, Except.pure, Except.ok.injEq, Prod.mk.injEq] at h
         rw [← h.1]
-        exact Img.same rfl (fun h => by simp [Item.isMarker] at h)
+        exact Img.same rfl rfl (fun h => by simp [Item.isMarker] at h)
           (fun _ => ⟨rfl, by simp [Item.sizeD, Item.size?]⟩) (fun h => by simp [Item.isInstr] at h)
   | shorthandPack line name imm =>
     simp only [immBody, bind, Except.bind] at h
@@ -211,7 +249,7 @@ theorem immBody_img (H : Hooks) (constants : Dict) (it : Item) (p : Int) (L : Di
       · simp at h
       · simp only [pure, Except.pure, Except.ok.injEq, Prod.mk.injEq] at h
         rw [← h.1]
-        exact Img.same rfl (fun h => by simp [Item.isMarker] at h)
+        exact Img.same rfl rfl (fun h => by simp [Item.isMarker] at h)
           (fun _ => ⟨rfl, by simp [Item.sizeD, Item.size?]⟩) (fun h => by simp [Item.isInstr] at h)
   | _ => exact keep_img (by simpa [immBody] using h)
 
@@ -220,33 +258,32 @@ theorem immBody_img (H : Hooks) (constants : Dict) (it : Item) (p : Int) (L : Di
 /-- a size-keeping step whose result carries the line and class of its argument -/
 theorem step_img {g : Item → Except Err Item} (hg : StepOK g) {it it' : Item} (h : g it = .ok it')
     (hl : it'.line = it.line)
+    (hs : Item.isSpecial it = false)
     (hm : Item.isMarker it = true → Item.isMarker it' = true)
     (hd : Item.isData it = true → Item.isData it' = true)
     (hi : Item.isInstr it = true → Item.isInstr it' = true ∨ Item.isData it' = true) : Img it [it'] := by
-  refine ⟨?_, ?_, ?_, ?_⟩
+  refine ⟨?_, ?_, ?_, ?_, ?_⟩
   · intro x hx; simp only [List.mem_singleton] at hx; subst hx; exact hl
   · intro hh x hx; simp only [List.mem_singleton] at hx; subst hx; exact hm hh
   · intro hh
     have hnl : ∀ l n, it ≠ .label l n := by
       intro l n e; subst e; simp [Item.isData] at hh
-    refine ⟨?_, ?_⟩
-    · intro x hx; simp only [List.mem_singleton] at hx; subst hx; exact hd hh
-    · simp [sizeSum, (hg.keep it it' hnl h).2]
+    exact ⟨it', rfl, hd hh, (hg.keep it it' hnl h).2⟩
   · intro hh
     have hnl : ∀ l n, it ≠ .label l n := by
       intro l n e; subst e; simp [Item.isInstr] at hh
     rcases hi hh with h1 | h1
-    · exact Or.inl ⟨it', rfl, h1⟩
-    · refine Or.inr ⟨?_, ?_⟩
-      · intro x hx; simp only [List.mem_singleton] at hx; subst hx; exact h1
-      · have hs := (hg.keep it it' hnl h).2
-        have : it.sizeD = 2 ∨ it.sizeD = 4 := by
-          cases it with
-          | instr line ins =>
-            simp only [Item.sizeD, Item.size?, Option.getD_some, Instr.size]
-            split <;> simp
-          | _ => simp [Item.isInstr] at hh
-        simpa [sizeSum, hs] using this
+    · exact ⟨it', rfl, Or.inl h1⟩
+    · refine ⟨it', rfl, Or.inr ⟨h1, ?_⟩⟩
+      have hs := (hg.keep it it' hnl h).2
+      have : it.sizeD = 2 ∨ it.sizeD = 4 := by
+        cases it with
+        | instr line ins =>
+          simp only [Item.sizeD, Item.size?, Option.getD_some, Instr.size]
+          split <;> simp
+        | _ => simp [Item.isInstr] at hh
+      rw [hs]; exact this
+  · intro hh; rw [hs] at hh; cases hh
 
 theorem instrStep_img (it it' : Item) (h : instrStep it = .ok it') : Img it [it'] := by
   cases it with
@@ -258,7 +295,7 @@ theorem instrStep_img (it it' : Item) (h : instrStep it = .ok it') : Img it [it'
     | ok bs =>
       simp only [he, pure, Except.pure, Except.ok.injEq] at h
       subst h
-      exact step_img instrStep_ok h0 rfl (fun h => by simp [Item.isMarker] at h)
+      exact step_img instrStep_ok h0 rfl rfl (fun h => by simp [Item.isMarker] at h)
         (fun h => by simp [Item.isData] at h) (fun _ => Or.inr rfl)
   | pseudo line name args => simp [instrStep] at h
   | _ =>
@@ -283,7 +320,7 @@ theorem seqStep_img (it it' : Item) (h : seqStep it = .ok it') : Img it [it'] :=
         | ok bs =>
           simp only [h2, pure, Except.pure, Except.ok.injEq] at h
           subst h
-          exact step_img seqStep_ok h0 rfl (fun h => by simp [Item.isMarker] at h)
+          exact step_img seqStep_ok h0 rfl rfl (fun h => by simp [Item.isMarker] at h)
             (fun _ => rfl) (fun h => by simp [Item.isInstr] at h)
   | _ =>
     simp only [seqStep, pure, Except.pure, Except.ok.injEq] at h
@@ -299,7 +336,7 @@ theorem shorthandStep_img (it it' : Item) (h : shorthandStep it = .ok it') : Img
       · simp at h
       · simp only [pure, Except.pure, Except.ok.injEq] at h
         subst h
-        exact step_img shorthandStep_ok h0 rfl (fun h => by simp [Item.isMarker] at h)
+        exact step_img shorthandStep_ok h0 rfl rfl (fun h => by simp [Item.isMarker] at h)
           (fun _ => rfl) (fun h => by simp [Item.isInstr] at h)
     · simp at h
   | _ =>
@@ -319,7 +356,7 @@ theorem packStep_img (it it' : Item) (h : packStep it = .ok it') : Img it [it'] 
         · simp at h
         · simp only [pure, Except.pure, Except.ok.injEq] at h
           subst h
-          exact step_img packStep_ok h0 rfl (fun h => by simp [Item.isMarker] at h)
+          exact step_img packStep_ok h0 rfl rfl (fun h => by simp [Item.isMarker] at h)
             (fun _ => rfl) (fun h => by simp [Item.isInstr] at h)
     · simp at h
   | _ =>
@@ -337,7 +374,7 @@ theorem includeBytesStep_img (H : Hooks) (it it' : Item) (h : includeBytesStep H
       · simp at h
       · simp only [pure, Except.pure, Except.ok.injEq] at h
         subst h
-        exact step_img (includeBytesStep_ok H) h0 rfl (fun h => by simp [Item.isMarker] at h)
+        exact step_img (includeBytesStep_ok H) h0 rfl rfl (fun h => by simp [Item.isMarker] at h)
           (fun _ => rfl) (fun h => by simp [Item.isInstr] at h)
   | _ =>
     simp only [includeBytesStep, pure, Except.pure, Except.ok.injEq] at h
